@@ -727,3 +727,165 @@ Proof.
   intros Hn E. pose proof (writer_write_all_post stype id fuel data w) as H. rewrite E in H.
   eapply wpost_no_fault; eassumption.
 Qed.
+
+(* ------------------------------------------------------------------------------------------ *)
+(* Part 5: Request::poll_output                                                                *)
+(* ------------------------------------------------------------------------------------------ *)
+
+(* everything of the stream parser except its output queue *)
+Definition sp_same_but_output (p p' : sp) : Prop :=
+  buffer p' = buffer p /\ parsed_start p' = parsed_start p /\ gap_start p' = gap_start p /\
+  raw_start p' = raw_start p /\ free_start p' = free_start p /\ sreq p' = sreq p /\ stream p' = stream p /\
+  payload_rem p' = payload_rem p /\ padding_rem p' = padding_rem p /\ sst p' = sst p.
+
+Lemma sp_same_refl p : sp_same_but_output p p.
+Proof. repeat split. Qed.
+
+Lemma sp_same_trans p p1 p2 : sp_same_but_output p p1 -> sp_same_but_output p1 p2 -> sp_same_but_output p p2.
+Proof.
+  intros (A1 & A2 & A3 & A4 & A5 & A6 & A7 & A8 & A9 & A10) (B1 & B2 & B3 & B4 & B5 & B6 & B7 & B8 & B9 & B10).
+  repeat split; congruence.
+Qed.
+
+Lemma sp_same_views p p' : sp_same_but_output p p' ->
+  stream_buffer p' = stream_buffer p /\ raw_bytes p' = raw_bytes p /\ sinput_space p' = sinput_space p /\
+  is_record_boundary p' = is_record_boundary p /\ stream p' = stream p /\ sreq p' = sreq p.
+Proof.
+  intros (A1 & A2 & A3 & A4 & A5 & A6 & A7 & A8 & A9 & A10).
+  unfold stream_buffer, raw_bytes, sinput_space, is_record_boundary.
+  rewrite A1, A2, A3, A4, A5, A8, A9. repeat split; assumption.
+Qed.
+
+Lemma consume_output_same p n : sp_same_but_output p (consume_output p n).
+Proof. unfold consume_output. destruct (len (output p) - output_start p <=? n); repeat split. Qed.
+
+(* consume_output removes exactly the first n bytes of the output queue (all of it if n is larger) *)
+Lemma consume_output_buffer p n : output_buffer (consume_output p n) = drop n (output_buffer p).
+Proof.
+  unfold consume_output, output_buffer.
+  destruct (N.leb_spec (len (output p) - output_start p) n) as [H|H]; cbn [output output_start].
+  - rewrite drop_0. symmetry. apply drop_all. rewrite len_drop. exact H.
+  - symmetry. apply drop_drop.
+Qed.
+
+Definition po_post (r : rstate) (w : world) (x : pres (unit + N) * rstate * world) : Prop :=
+  let '(p, r', w') := x in
+  let out := output_buffer (rsp r) in
+  exists n, n <= len out /\ io_rel w w' (take n out) /\
+    output_buffer (rsp r') = drop n out /\
+    sp_same_but_output (rsp r) (rsp r') /\ rwriteable r' = rwriteable r /\
+    match p with
+    | PReady (inl _) => n = len out /\ rlock r' = false
+    | PReady (inr k) => k = 99 \/ (n < len out /\ rlock r' = true /\ fault_of k (wscript w))
+    | PWake => n < len out /\ rlock r' = true /\ In 0 (wscript w)
+    | PBlock => False
+    end.
+
+Theorem poll_output_post fuel : forall r w, po_post r w (poll_output fuel r w).
+Proof.
+  induction fuel as [|f IH]; intros r w.
+  - cbn [poll_output po_post]. exists 0. rewrite take_0, drop_0. split; [lia|]. split; [apply io_rel_refl|].
+    split; [reflexivity|]. split; [apply sp_same_refl|]. split; [reflexivity|]. left. reflexivity.
+  - cbn [poll_output]. destruct (output_buffer (rsp r)) as [|x o'] eqn:Eo.
+    + cbn [po_post rsp rwriteable rlock]. rewrite Eo. exists 0. rewrite take_0, drop_0. split; [reflexivity|].
+      split; [apply io_rel_refl|]. split; [reflexivity|]. split; [apply sp_same_refl|]. split; [reflexivity|].
+      split; reflexivity.
+    + set (out := x :: o') in *. assert (Hne : out <> []) by discriminate.
+      pose proof (len_pos_nonnil out Hne) as Hlen.
+      destruct (t_poll_write_spec out w) as [w1 Hs Hio|w1 Hs Hio|w1 Hs Hio|n w1 Hn Hpos Hio Hs Hnil Hk].
+      * cbn [po_post rsp rwriteable rlock]. rewrite Eo. exists 0. rewrite take_0, drop_0. split; [lia|].
+        split; [exact Hio|]. split; [reflexivity|]. split; [apply sp_same_refl|]. split; [reflexivity|].
+        split; [exact Hlen|]. split; [reflexivity|]. rewrite Hs. left. reflexivity.
+      * change (0 =? 0) with true. cbn [po_post rsp rwriteable rlock]. rewrite Eo. exists 0.
+        rewrite take_0, drop_0. split; [lia|].
+        split; [exact Hio|]. split; [reflexivity|]. split; [apply sp_same_refl|]. split; [reflexivity|].
+        right. split; [exact Hlen|]. split; [reflexivity|]. left. split; [reflexivity|]. rewrite Hs. left. reflexivity.
+      * cbn [po_post rsp rwriteable rlock]. rewrite Eo. exists 0. rewrite take_0, drop_0. split; [lia|].
+        split; [exact Hio|]. split; [reflexivity|]. split; [apply sp_same_refl|]. split; [reflexivity|].
+        right. split; [exact Hlen|]. split; [reflexivity|]. right. split; [reflexivity|]. rewrite Hs. left. reflexivity.
+      * specialize (Hpos Hne). destruct (N.eqb_spec n 0) as [Hn0|Hn0]; [lia|].
+        set (r1 := mkR (consume_output (rsp r) n) (rwriteable r) true).
+        pose proof (IH r1 w1) as HI. destruct (poll_output f r1 w1) as [[p r'] w'].
+        unfold po_post in HI |- *. cbn [rsp rwriteable rlock r1] in HI. cbv zeta in HI |- *.
+        rewrite consume_output_buffer, Eo in HI. rewrite Eo.
+        destruct HI as (m & Hm & Hio2 & Hout & Hsame & Hwr & Hp).
+        rewrite len_drop in Hm.
+        exists (n + m). split; [lia|]. split; [rewrite take_add; eapply io_rel_trans; eassumption|].
+        split; [rewrite Hout, drop_drop; reflexivity|].
+        split; [eapply sp_same_trans; [apply consume_output_same|exact Hsame]|]. split; [exact Hwr|].
+        destruct p as [[u|k]| |].
+        -- destruct Hp as [Hp1 Hp2]. rewrite len_drop in Hp1. split; [lia|exact Hp2].
+        -- destruct Hp as [Hp|(Hp1 & Hp2 & Hp3)]; [left; exact Hp|right]. rewrite len_drop in Hp1.
+           split; [lia|]. split; [exact Hp2|]. eapply fault_of_suffix; [|exact Hp3]. apply Hio.
+        -- destruct Hp as (Hp1 & Hp2 & Hp3). rewrite len_drop in Hp1. split; [lia|]. split; [exact Hp2|].
+           eapply suffix_In; [|exact Hp3]. apply Hio.
+        -- exact Hp.
+Qed.
+
+(* fuel: the code 99 (model fuel exhausted) does not occur with the fuel the model supplies *)
+Lemma poll_output_fuel fuel : forall r w,
+  (length (wscript w) + (match output_buffer (rsp r) with [] => 0 | _ => 1 end) < fuel)%nat ->
+  fst (fst (poll_output fuel r w)) <> PReady (inr 99).
+Proof.
+  induction fuel as [|f IH]; intros r w Hf; [lia|].
+  cbn [poll_output]. destruct (output_buffer (rsp r)) as [|x o'] eqn:Eo; [cbn [fst]; discriminate|].
+  change (length (wscript w) + 1 < S f)%nat in Hf.
+  set (out := x :: o') in *. assert (Hne : out <> []) by discriminate.
+  destruct (t_poll_write_spec out w) as [w1 Hs Hio|w1 Hs Hio|w1 Hs Hio|n w1 Hn Hpos Hio Hs Hnil Hk].
+  - cbn [fst]. discriminate.
+  - change (0 =? 0) with true. cbn [fst]. discriminate.
+  - cbn [fst]. discriminate.
+  - specialize (Hpos Hne). destruct (N.eqb_spec n 0) as [Hn0|Hn0]; [lia|].
+    apply IH. cbn [rsp]. rewrite consume_output_buffer, Eo. fold out. rewrite Hs.
+    destruct (wscript w) as [|k ws'] eqn:Hw.
+    + rewrite (Hnil eq_refl). rewrite drop_all by lia. cbn [tl length] in *. lia.
+    + cbn [tl length] in *. destruct (drop n out); lia.
+Qed.
+
+Corollary poll_output_io_fuel r w extra : fst (fst (poll_output (io_fuel w extra) r w)) <> PReady (inr 99).
+Proof. apply poll_output_fuel. unfold io_fuel. destruct (output_buffer (rsp r)); lia. Qed.
+
+Lemma poll_output_RI fuel : forall r w, RI (rsp r) -> RI (rsp (snd (fst (poll_output fuel r w)))).
+Proof.
+  induction fuel as [|f IH]; intros r w HRI; [exact HRI|].
+  cbn [poll_output]. destruct (output_buffer (rsp r)) as [|x o']; [exact HRI|].
+  destruct (t_poll_write (x :: o') w) as [[[n|k]| |] w1]; try exact HRI.
+  destruct (n =? 0); [exact HRI|]. apply IH. cbn [rsp]. apply consume_output_RI. exact HRI.
+Qed.
+
+(* item 5, spelled out *)
+Theorem poll_output_spec fuel r w p r' w' : poll_output fuel r w = (p, r', w') ->
+  let out := output_buffer (rsp r) in
+  exists n, n <= len out /\
+    wlog w' = wlog w ++ take n out /\ same_but_io w w' /\ suffix (wscript w') (wscript w) /\
+    output_buffer (rsp r') = drop n out /\
+    sp_same_but_output (rsp r) (rsp r') /\
+    stream_buffer (rsp r') = stream_buffer (rsp r) /\ raw_bytes (rsp r') = raw_bytes (rsp r) /\
+    rwriteable r' = rwriteable r /\
+    (RI (rsp r) -> RI (rsp r')) /\
+    match p with
+    | PReady (inl _) => n = len out /\ output_buffer (rsp r') = [] /\ rlock r' = false
+    | PReady (inr k) => (k = 99 /\ (fuel <= length (wscript w) + 1)%nat) \/
+        (n < len out /\ rlock r' = true /\ (k = EK_WriteZero \/ k = EK_Transport) /\ ~ no_fault (wscript w))
+    | PWake => n < len out /\ rlock r' = true
+    | PBlock => False
+    end.
+Proof.
+  intros E out. pose proof (poll_output_post fuel r w) as H. pose proof (poll_output_fuel fuel r w) as Hf.
+  rewrite E in H, Hf. cbn [fst] in Hf. unfold po_post in H. cbv zeta in H. fold out in H.
+  destruct H as (n & Hn & Hio & Hout & Hsame & Hwr & Hp). exists n.
+  destruct (sp_same_views _ _ Hsame) as (V1 & V2 & _).
+  split; [exact Hn|]. split; [apply Hio|]. split; [apply Hio|]. split; [apply Hio|]. split; [exact Hout|].
+  split; [exact Hsame|]. split; [exact V1|]. split; [exact V2|]. split; [exact Hwr|].
+  split; [intros HRI; pose proof (poll_output_RI fuel r w HRI) as HR; rewrite E in HR; exact HR|].
+  destruct p as [[u|k]| |].
+  - destruct Hp as [Hp1 Hp2]. split; [exact Hp1|]. split; [|exact Hp2]. rewrite Hout. apply drop_all. lia.
+  - destruct Hp as [Hp|(Hp1 & Hp2 & Hp3)].
+    + left. split; [exact Hp|]. subst k.
+      destruct (Nat.le_gt_cases fuel (length (wscript w) + 1)) as [Hle|Hgt]; [exact Hle|].
+      exfalso. apply Hf; [|reflexivity]. destruct (output_buffer (rsp r)); lia.
+    + right. split; [exact Hp1|]. split; [exact Hp2|]. split; [eapply fault_of_kind; exact Hp3|].
+      intros Hnf. eapply no_fault_not_fault; eassumption.
+  - tauto.
+  - exact Hp.
+Qed.
